@@ -282,12 +282,22 @@ def run_registration(ctx):
     m = ctx.model
     rng = ctx.rng
     n = 1200 if ctx.tier == "quick" else 20000
+    shared = None
     for i in range(n):
         server_md = rng.choice(SERVERS)
         payload = gen_payload(rng)
         jok = jwks_valid(payload["jwks"]) if "jwks" in payload else True
-        store = S.Store()
-        srv = make_reg_server(store, server_md, None)
+        # the server and its endpoint objects live across requests; the deployment's metadata (what get_server_metadata returns)
+        # changes between them
+        if shared is None or rng.random() < 0.25:
+            live_md = {}
+            store = S.Store()
+            shared = (store, make_reg_server(store, live_md, None), live_md)
+        store, srv, live_md = shared
+        live_md.clear()
+        live_md.update(json.loads(json.dumps(server_md)))
+        store.saved = []
+        store.reg = {"cid1": {"client_secret": "sec1", "metadata": {"client_name": "old"}}}
         mode = rng.choice(["register", "register", "update"])
         if mode == "register":
             tok = rng.random() < 0.85
